@@ -16,8 +16,9 @@ SPEC = {
         'dict, T22 the hash derives from an order-insensitive aggregate of the items and a cached error is re-raised, '
         'T8f updated/__copy__/__reduce_ex__/fromkeys never write the receiver. Not decided: OneToOne.__init__ '
         'de-duplication, exact-inverse equality for every history.'
-        " T22r: FrozenDict's reduction does not carry the cached hash."),
-    'decided': ['reduction carries no cached hash', 'T1', 'T2 paired writes', 'T3 one-pass update', 'T20 no foreign alias', 'T21 guarded store',
+        " T22r: FrozenDict's reduction does not carry the cached hash."
+        ' T25.mirror: ManyToMany add/remove/update treat data and inv.data by mirror-image effects. T2.prehash: OneToOne.update hashes every item before the first store.'),
+    'decided': ['mirror-image updates', 'validation before the first store', 'reduction carries no cached hash', 'T1', 'T2 paired writes', 'T3 one-pass update', 'T20 no foreign alias', 'T21 guarded store',
                 'T1f frozen mutators', 'T22 order-insensitive hash', 'T8f pure helpers'],
     'declined': ['OneToOne.__init__ duplicate handling', 'exact inverse after every history (value-level)'],
     'trusted_base': ['CPython: dict.X(self, ...) and C-level inherited mutators bypass overridden methods'],
